@@ -844,7 +844,7 @@ def probe_lexical():
 PROP = Prop(
     id="C06",
     title="Printing an expression and parsing the text gives the expression back",
-    lean_targets=["PV.Properties.C06", "PV.Properties.C06Table"],
+    lean_targets=["PV.Properties.C06", "PV.Properties.C06Table", "PV.Properties.C06Value"],
     extractors=[extract],
     streams=[PrintStream(), PrintOrderStream(), ParseStream(), FragmentStream(), LexRawStream(), LexTokStream(),
              ParseStringStream(), StringFragmentStream(), TableStrStream(), TableDispatchStream()],
